@@ -171,6 +171,25 @@ func (s *c09) Final(w *World) *Violation {
 			return &Violation{Property: "C09", Rule: "R1", Signature: "block-hook-ran-for-third-peer", Detail: "incoming block hook invoked with sender T"}
 		}
 	}
+	// R1b: the response data a block hook is handed is one the genuine responder sent for that request
+	sentByB := map[string]bool{}
+	for _, wm := range w.Net.WireFor("B", "A") {
+		if wm.Err != nil {
+			continue
+		}
+		for _, r := range wm.Msg.Responses() {
+			sentByB[fmt.Sprintf("%s|%d|%v", shortReq(r.RequestID()), r.Status(), extNames(r.ExtensionNames()))] = true
+		}
+	}
+	for _, r := range reqs {
+		// before the first response arrives the hook is handed a locally made acknowledgement
+		sentByB[fmt.Sprintf("%s|%d|%v", shortReq(r.ID), graphsync.RequestAcknowledged, []string{})] = true
+	}
+	for _, h := range s.a.InBlocks {
+		if victim(h.Req) && !sentByB[fmt.Sprintf("%s|%d|%v", shortReq(h.Req), h.Status, h.Exts)] {
+			return &Violation{Property: "C09", Rule: "R1", Signature: "block-hook-handed-third-peer-response", Detail: fmt.Sprintf("incoming block hook for request %s (block #%d, step %d) was handed response data (status %d, extensions %v) that its responder never sent", shortReq(h.Req), h.Index, h.Step, h.Status, h.Exts)}
+		}
+	}
 	// R3: nothing sent on a request's behalf because of the intruder
 	// (a stray response - for an unknown ID, or for a request that has ended - is answered
 	// like any stray response, e.g. with the update its hook asks for; that is not on a request's behalf)
